@@ -1306,6 +1306,42 @@ func inlinedLocation(c *Case, o *Outcome, mr *modelResult, res *Result) (class, 
 		return "", ""
 	}
 	idx := o2.Err.Index
+	segAt := func(i int) *inlineSeg {
+		for k := range segs {
+			if i >= segs[k].start && i < segs[k].start+segs[k].n {
+				return &segs[k]
+			}
+		}
+		return nil
+	}
+	// The end of a file means something in the language: it ends whatever the last directive of
+	// the file was still waiting for (a response code without a body at the end of an included
+	// file is complete there; followed directly by the next line of the including file it takes
+	// that line for its body). An error of the single-file version on the first token after the
+	// end of an included file may therefore be a defect the project does not have - and the project's own
+	// error of the same text a different, later one. Nothing to compare.
+	if cur := segAt(idx); cur != nil {
+		for j := idx - 1; j >= 0; j-- {
+			if ch := text[j]; ch == ' ' || ch == '\t' || ch == '\n' || ch == '\r' {
+				continue
+			}
+			if sj := segAt(j); sj != nil && sj.inst != cur.inst {
+				// (only where a file ENDS: what is pending when an INCLUDE opens a file stays pending
+				// inside it, exactly as in the single-file version)
+				entering := false
+				for a := cur.inst.Parent; a != nil; a = a.Parent {
+					if a == sj.inst {
+						entering = true
+					}
+				}
+				if !entering {
+					res.count("c07:inlined-comparison-inconclusive(first-token-after-the-end-of-a-file)", 1)
+					return "", ""
+				}
+			}
+			break
+		}
+	}
 	for _, sg := range segs {
 		if idx >= sg.start && idx < sg.start+sg.n {
 			wantFile, wantOff := sg.inst.Path, sg.off+(idx-sg.start)
